@@ -103,6 +103,11 @@ func (c DeleteCmd) deleteRank(tx sqlx.Tx, now int64) (int, error) {
 	if c.byRank.start < 0 || c.byRank.stop < 0 {
 		return 0, nil
 	}
+	if c.byRank.start > c.byRank.stop {
+		// An inverted range selects nothing. Without this check
+		// the negative count would mean "no limit" to SQLite.
+		return 0, nil
+	}
 
 	// Delete elements by rank.
 	args := []any{
